@@ -271,6 +271,39 @@ impl Ctx {
                 }
                 (c.into(), json!([]))
             }
+            "bseek" => {
+                // offsets near multiples of 2^62, written [hi, lo] = hi * 2^62 + lo (TLC has 32-bit integers)
+                let hi = o["hi"].as_i64().unwrap() as i128;
+                let lo = o["lo"].as_i64().unwrap() as i128;
+                let v: i128 = hi * (1i128 << 62) + lo;
+                let sf = match o["w"].as_str().unwrap() {
+                    "start" => SeekFrom::Start(v as u64),
+                    "cur" => SeekFrom::Current(v as i64),
+                    _ => SeekFrom::End(v as i64),
+                };
+                let r = if self.wh.is_some() {
+                    let h = self.wh.as_mut().unwrap();
+                    guard(|| h.seek(sf))
+                } else {
+                    let h = self.rh.as_mut().unwrap();
+                    guard(|| h.seek(sf))
+                };
+                let pair = |p: u64| -> Value {
+                    let k = 1u128 << 62;
+                    let hi = ((p as u128) + k / 2) / k;
+                    let lo = p as i128 - (hi * k) as i128;
+                    json!([hi as i64, if lo.abs() < (1 << 30) { lo as i64 } else { 999_999_999 }])
+                };
+                match r {
+                    Err(()) => {
+                        std::mem::forget(self.wh.take());
+                        std::mem::forget(self.rh.take());
+                        ("panic".into(), json!([]))
+                    }
+                    Ok(Err(_)) => ("err".into(), json!([])),
+                    Ok(Ok(p)) => ("ok".into(), pair(p)),
+                }
+            }
             "seek_w" | "seek_r" | "xseek" => {
                 let sf = if op == "xseek" {
                     match o["n"].as_i64().unwrap() {
@@ -492,7 +525,37 @@ pub fn run(lts: &HLts, o: &HOpts) -> Value {
                 break;
             }
             cur = e.to;
-            if o.extreme && step + 1 == o.len {
+            if o.extreme && step + 1 == o.len && rng.gen_bool(0.5) {
+                let st = &lts.states[cur];
+                // (the async port's write handles are AsyncWrite only: they cannot seek)
+                let async_writer = o.cfg.starts_with("async:") && st["w"]["open"] == true;
+                if (st["w"]["open"] == true || st["r"]["open"] == true) && !async_writer {
+                    // a script of seeks with extreme offsets whose outcome the integer model determines:
+                    // [whence, hi, lo]  (u64::MAX = [4,-1], i64::MAX = [2,-1], i64::MIN = [-2,0], 2^63 = [2,0])
+                    const CAT: [(&str, i64, i64); 16] = [
+                        ("start", 4, -1), ("cur", 0, 1), ("cur", 0, 0), ("cur", 0, -1), ("start", 2, 0), ("cur", 2, -1), ("cur", -2, 0), ("end", 2, -1),
+                        ("end", -2, 0), ("start", 2, -1), ("cur", 0, 2), ("end", 0, -1000), ("start", 0, 5), ("cur", 0, -7), ("end", 0, 3), ("start", 1, 0),
+                    ];
+                    for _ in 0..rng.gen_range(2..7) {
+                        let (w, hi, lo) = CAT[rng.gen_range(0..CAT.len())];
+                        let lo = lo * o.b as i64;
+                        let bo = json!({"op":"bseek","c":[],"wh":"","off":0,"n":0,"w":w,"hi":hi,"lo":lo,"b":o.b});
+                        let (cls, v) = ctx.exec(&bo);
+                        out.put(&json!({"ev":"hcall","o":bo,"res":{"c":cls,"v":v},"fresh":{"c":"skip","v":[],"len":0,"k":"none","cr":"none"}}));
+                        steps += 1;
+                        if cls == "panic" {
+                            break;
+                        }
+                    }
+                    // a read after the script must not panic (judged as an extreme seek: no panic)
+                    if ctx.rh.is_some() {
+                        let xo = json!({"op":"xseek","c":[],"wh":"","off":0,"n":6});
+                        let (cls, v) = ctx.exec(&xo);
+                        out.put(&json!({"ev":"hcall","o":xo,"res":{"c":cls,"v":v},"fresh":{"c":"skip","v":[],"len":0,"k":"none","cr":"none"}}));
+                        steps += 1;
+                    }
+                }
+            } else if o.extreme && step + 1 == o.len {
                 let st = &lts.states[cur];
                 if st["w"]["open"] == true || st["r"]["open"] == true {
                     let xo = json!({"op":"xseek","c":[],"wh":"","off":0,"n":rng.gen_range(0..8)});
